@@ -75,7 +75,7 @@ Definition parse_one (M : cmodel) (self : cls) (f : field) : items :=
              i_fks := [{| fk_name := o2o_fk_name (f_name f); fk_target := full_primary_key_name tt primary_key_name;
                           fk_opt := is_optional w |}];
              i_rels := [{| rel_name := o2o_rel_name (f_name f); rel_target := tt; rel_uselist := false;
-                           rel_fk := o2o_fk_name (f_name f); rel_secondary := "";
+                           rel_fk := o2o_fk_name (f_name f); rel_secondary := ""; rel_joins := "";
                            (* remote_side when walking target.parent_table upwards reaches the own table *)
                            rel_remote := if existsb (fun a => String.eqb (c_name a) (c_name self))
                                                     (tc :: ancestors (List.length M) M tc)
@@ -95,13 +95,19 @@ Definition parse_one (M : cmodel) (self : cls) (f : field) : items :=
       | Some tc =>
           let tt := tablename (c_name tc) in
           let an := o2m_association_table_name self_table (f_name f) in
+          let l0 := o2m_left_fk_name self_table in
+          let r0 := o2m_right_fk_name tt in
+          let clash := o2m_fk_names_clash l0 r0 in
+          let l := if clash then o2m_left_fk_name_on_clash l0 else l0 in
+          let r := if clash then o2m_right_fk_name_on_clash r0 else r0 in
+          let spk := full_primary_key_name self_table primary_key_name in
+          let tpk := full_primary_key_name tt primary_key_name in
           {| i_builtin := []; i_custom := []; i_fks := [];
              i_rels := [{| rel_name := o2m_rel_name (f_name f); rel_target := tt; rel_uselist := true;
-                           rel_fk := ""; rel_secondary := an; rel_remote := "" |}];
-             i_assoc := [{| a_name := an; a_lfk := o2m_left_fk_name self_table;
-                            a_lpk := full_primary_key_name self_table primary_key_name;
-                            a_rfk := o2m_right_fk_name tt;
-                            a_rpk := full_primary_key_name tt primary_key_name;
+                           rel_fk := ""; rel_secondary := an;
+                           rel_joins := if clash then o2m_joins_on_clash spk an l tpk r else "";
+                           rel_remote := "" |}];
+             i_assoc := [{| a_name := an; a_lfk := l; a_lpk := spk; a_rfk := r; a_rpk := tpk;
                             a_ltable := self_table; a_rtable := tt |}];
              i_imports := []; i_err := false |}
       | None => err_items
@@ -165,7 +171,7 @@ Definition col_sx (c : column) : sx :=
 Definition fk_sx (k : fkcol) : sx := SL [str_sx (fk_name k); str_sx (fk_target k); SB (fk_opt k); strs_set (fk_mods k)].
 Definition rel_sx (r : rel) : sx :=
   SL [str_sx (rel_name r); str_sx (rel_target r); SB (rel_uselist r); str_sx (rel_fk r); str_sx (rel_secondary r);
-      str_sx (rel_target r); strs_set (rel_mods r); str_sx (rel_remote r)].
+      str_sx (rel_target r); strs_set (rel_mods r); str_sx (rel_remote r); str_sx (rel_joins r)].
 Definition table_sx (t : table) : sx :=
   SL [str_sx (t_cls t); str_sx (t_module t); str_sx (t_name t);
       str_sx (match t_base t with Some b => b | None => "Base" end);
@@ -254,7 +260,13 @@ Definition unused_assoc (s : schema) : list sx :=
                                                             | _ => false end) (last_wins (attrs_of t))) (s_tables s)
                      then [] else [str_sx (a_name a)]) (s_assoc s).
 
+(* ORMatic._check_generated_names (bd9b8e0): the same table name twice, the same attribute of a DAO twice, or `metadata` *)
+Definition refused (s : schema) : bool :=
+  negb (str_nodup (table_names s ++ map a_name (s_assoc s)))
+  || existsb (fun t => negb (str_nodup (attr_names t)) || str_in "metadata" (attr_names t)) (s_tables s).
+
 Definition model_obs (s : schema) : sx :=
+  if refused s then SL [SZ 2] else
   if accepts s then SL [SZ 1; SL (sx_sort (map (class_obs s) (s_tables s))); SL (sx_sort (unused_assoc s))]
   else SL [SZ 0].
 
@@ -267,5 +279,6 @@ Definition is_topo_b (M : cmodel) (order : list cls) : bool :=
 
 Definition case_gen (M : cmodel) (names : list string) : sx := gen_sx (gen M (order_of M names)).
 Definition case_obs (M : cmodel) (names : list string) : sx := model_obs (gen M (order_of M names)).
+Definition case_spec (M : cmodel) : sx := spec_obs_r tablename o2m_association_table_name M.
 Definition case_info (M : cmodel) (names : list string) : sx :=
-  SL [SB (wfM M); SB (is_topo_b M (order_of M names)); SB (schema_wf (gen M (order_of M names)))].
+  SL [SB (wfM M); SB (is_topo_b M (order_of M names)); SB (schema_wf (gen M (order_of M names)) || refused (gen M (order_of M names)))].
